@@ -100,7 +100,10 @@ PRE_IMPORT = {
 }
 
 
-def make_script(stmts, k, mode, control=False, observe=None):
+CHDIR = "os.makedirs('sub/keys', exist_ok=True)\nos.chdir('sub')\n"      # the script moves on after importing the library
+
+
+def make_script(stmts, k, mode, control=False, observe=None, chdir=False):
     body = list(stmts[:k])
     ins = MODES[mode][0]
     if control:
@@ -108,7 +111,7 @@ def make_script(stmts, k, mode, control=False, observe=None):
         if ins and MODES[mode][1] is not None:
             lines.append(CONTROL_INS.get(mode, ins))
         return "\n".join(lines) + "\n"
-    src = PRELUDE + (OBSERVE_PRE if observe else "") + PRE_IMPORT.get(mode, "") + IMPORTS + (OBSERVE[observe] if observe else "") + "\n".join(body) + "\n"
+    src = PRELUDE + (OBSERVE_PRE if observe else "") + PRE_IMPORT.get(mode, "") + IMPORTS + (CHDIR if chdir else "") + (OBSERVE[observe] if observe else "") + "\n".join(body) + "\n"
     if ins:
         src += ins + "\n"
     if MODES[mode][1] is None or mode == "fall_off":
@@ -137,7 +140,8 @@ def main():
                 for mode in MODES:
                     if mode == "fall_off" and k != len(st):
                         continue
-                    runs.append(dict(backend=be, script=si, stmts=st, k=k, mode=mode, observe=[None, "wrap", None, "proxy"][(k + len(runs)) % 4]))
+                    runs.append(dict(backend=be, script=si, stmts=st, k=k, mode=mode, observe=[None, "wrap", None, "proxy"][(k + len(runs)) % 4],
+                                     chdir=(len(runs) % 5 == 2), other_tmp=(len(runs) % 3 == 1)))
     common.rng(PROP, "order").shuffle(runs)
     nshards = 16
     jobs = [dict(seed="%d/%s/%d" % (common.seed(), PROP, s), runs=runs[s::nshards]) for s in range(nshards)]
@@ -160,13 +164,25 @@ def deps(stmt):
     return [v for v in "abcdefghijkm" if (" %s " % v) in (" " + rhs.replace("(", " ").replace(")", " ").replace(".", " ").replace(",", " ") + " ")]
 
 
-def run_script(src, wd, backend, timeout=120):
+def other_filesystem_tmp():
+    """a temp directory on another file system than the working directories (None if there is none)"""
+    try:
+        if os.path.isdir("/dev/shm") and os.access("/dev/shm", os.W_OK) and os.stat("/dev/shm").st_dev != os.stat(os.getcwd()).st_dev:
+            return "/dev/shm"
+    except OSError:
+        pass
+    return None
+
+
+def run_script(src, wd, backend, timeout=120, tmpdir=None):
     os.makedirs(os.path.join(wd, "keys"), exist_ok=True)
     open(os.path.join(wd, "prog.py"), "w").write(src)
     env = {"PYSNARK_BACKEND": backend} if backend else {}
     if backend == "qaptools":
         env.update({"QAPTOOLS_BIN": os.path.join(boot.SHIMS, "qaptools_bin"), "PYSNARK_KEYDIR": "keys"})
     e = boot.child_env(env, shims=("flatbuffers",))
+    if tmpdir:
+        e["TMPDIR"] = tmpdir
     if not backend:
         e["PYTHONPATH"] = ""
     pr = subprocess.run([boot.PY] + boot.pyflags() + ["prog.py"], cwd=wd, env=e, stdout=subprocess.PIPE, stderr=subprocess.PIPE, timeout=timeout)
@@ -199,18 +215,28 @@ def worker(job):
         wd = tempfile.mkdtemp(prefix="c18-", dir=home)
         try:
             observe = run.get("observe")
-            rc, err, out = run_script(make_script(st, k, mode, observe=observe), wd, be)
+            chdir = bool(run.get("chdir")) and be != "qaptools"      # (its key directory is a relative path here: files opened at import)
+            tmpdir = other_filesystem_tmp() if run.get("other_tmp") else None
+            if chdir:
+                R.count("runs_that_change_directory_after_import")
+            if tmpdir:
+                R.count("runs_with_tmpdir_on_another_filesystem")
+            rc, err, out = run_script(make_script(st, k, mode, observe=observe, chdir=chdir), wd, be, tmpdir=tmpdir)
+            root = os.path.join(wd, "sub") if chdir else wd         # where the script is when it ends
+            if chdir and any(os.path.exists(os.path.join(wd, a)) for a in arts):
+                R.violation("artefact-in-import-time-directory", "the script changed directory after importing the library; artefacts appeared in the directory of the import, not in the current one",
+                            backend=be, statements=st, position=k, mode=mode)
             proved = None
             if observe:
                 try:
-                    proved = int(open(os.path.join(wd, "prove_calls.txt")).read())
+                    proved = int(open(os.path.join(root, "prove_calls.txt")).read())
                 except (OSError, ValueError):
                     proved = -1
-            present = {a: os.path.exists(os.path.join(wd, a)) for a in arts}
-            blobs = {a: open(os.path.join(wd, a), "rb").read() for a in arts if present[a]}
+            present = {a: os.path.exists(os.path.join(root, a)) for a in arts}
+            blobs = {a: open(os.path.join(root, a), "rb").read() for a in arts if present[a]}
             writes = audit_counts(wd)
-            eqfiles = sorted(f for f in os.listdir(os.path.join(wd, "keys")) if f.startswith("pysnark_eqs_")) if be == "qaptools" else []
-            eqblobs = {f: open(os.path.join(wd, "keys", f), "rb").read() for f in eqfiles}
+            eqfiles = sorted(f for f in os.listdir(os.path.join(root, "keys")) if f.startswith("pysnark_eqs_")) if be == "qaptools" else []
+            eqblobs = {f: open(os.path.join(root, "keys", f), "rb").read() for f in eqfiles}
         finally:
             shutil.rmtree(wd, ignore_errors=True)
         # control: same termination without pysnark
@@ -265,7 +291,7 @@ def worker(job):
                 R.violation("artefact-incomplete:" + mode, "per-function equation files differ from the fall-off run of the same prefix", **det)
             for a in arts:
                 n = writes.get(os.path.basename(a), 0)
-                if n != 1:
+                if n > 1:          # (0 = written under another name and moved into place: an atomic write is fine)
                     R.violation("artefact-written-%s-times" % n, "%s opened for writing %d times" % (a, n), **det)
                     break
         elif success is False:
